@@ -114,7 +114,7 @@ class C06(Prop):
             n2 = r["attempts"][1]["n"] if len(r["attempts"]) > 1 else 0
             items.append("check_lingering %d %d %d %d %d" % (c["size"], c["gate"], c["script"][0]["plen"], n2, r.get("lingered_bytes", 0)))
             rows.append(("lingering", r))
-        body = "\n".join(["From Coq Require Import ZArith List Bool.", "From IP Require Import Agent.ReplayBuffer Agent.ReplayCheck Server.ProxyCheck.", "Import ListNotations.",
+        body = "\n".join(["From Coq Require Import ZArith List Bool.", "From IP Require Import Agent.ReplayBuffer Agent.ReplayCheck Lib.Util.", "Import ListNotations.",
                           "Definition codes : list Z := " + C.llit(items) + ".",
                           "Definition verif_result : list Z := Eval vm_compute in (map (fun p => fst p * 10 + snd p)%Z (nonzero_indices 0%Z codes))."])
         txt, out, dt = C.eval_cases(ctx.work, "cases_c06", body, timeout=1500)
